@@ -139,3 +139,77 @@ def v_additions(root):
 VARIANTS = {'unparse': v_unparse, 'reorder': v_reorder, 'rename': v_rename, 'idioms': v_idioms, 'additions': v_additions}
 
 
+
+
+def v_idioms2(root):
+    """a second family of equivalent re-implementations (immediate raise, all(), broader handler, exit-code variable)"""
+    # metadata: raise as soon as a key repeats (same error, same message for the first duplicate)
+    sub(f'{root}/parser.py', """        metadata: Dict[str, Any] = {}
+        pid = None
+        dup = None
+        for key, value in children:
+            if key == 'id':
+                pid = value
+            if key in metadata:
+                dup = key
+            metadata[key] = value
+        if dup is not None:
+            raise HplSyntaxError.duplicate_metadata(dup, pid=pid)
+        return metadata""", """        metadata: Dict[str, Any] = {}
+        for key, value in children:
+            if key in metadata:
+                raise HplSyntaxError.duplicate_metadata(key, pid=metadata.get('id'))
+            metadata[key] = value
+        return metadata""")
+    # but(): all() instead of for/else
+    sub(f'{root}/ast/base.py', """            for key, value in kwargs.items():
+                if getattr(self, key) is not value:
+                    break
+            else:
+                return self  # nothing changes""", """            if all(getattr(self, key) is value for key, value in kwargs.items()):
+                return self  # nothing changes""")
+    # reshape of sets: all() instead of for/else
+    sub(f'{root}/ast/expressions.py', """        for previous, value in zip(self.values, values):
+            if value is not previous:
+                break
+        else:
+            return self
+        return self.but(values=values)""", """        if all(value is previous for previous, value in zip(self.values, values)):
+            return self
+        return self.but(values=values)""")
+    # parser: catch the common base class of lark's input errors
+    sub(f'{root}/parser.py', "from lark.exceptions import UnexpectedCharacters, UnexpectedToken\n", "from lark.exceptions import UnexpectedInput\n")
+    sub(f'{root}/parser.py', "        except (UnexpectedToken, UnexpectedCharacters, SyntaxError) as e:\n", "        except (UnexpectedInput, SyntaxError) as e:\n")
+    # cli: exit code through a variable
+    sub(f'{root}/cli.py', """    except HplSyntaxError as hse:
+        print('Syntax error:', file=sys.stderr)
+        print(hse, file=sys.stderr)
+        return 1
+""", """    except HplSyntaxError as hse:
+        print('Syntax error:', file=sys.stderr)
+        print(hse, file=sys.stderr)
+        status = 1
+        return status
+""")
+    # children of a scope built incrementally
+    sub(f'{root}/ast/properties.py', """        if self.activator is None and self.terminator is None:
+            return ()
+        if self.activator is None:
+            return (self.terminator,)
+        if self.terminator is None:
+            return (self.activator,)
+        return (self.activator, self.terminator)""", """        events = ()
+        if self.activator is not None:
+            events = events + (self.activator,)
+        if self.terminator is not None:
+            events = events + (self.terminator,)
+        return events""")
+    # union through functools.reduce-free comprehension is not equivalent; keep fold but with explicit start name
+    sub(f'{root}/types.py', "        result = DataType.NONE\n", "        result = DataType(0)\n")
+    # sanity check: terminator first computed, same order of effects
+    sub(f'{root}/ast/properties.py', """        if self.pattern.is_absence or self.pattern.is_existence:
+            self._check_behaviour(initial)""", """        if self.pattern.is_existence or self.pattern.is_absence:
+            self._check_behaviour(initial)""")
+
+
+VARIANTS['idioms2'] = v_idioms2
